@@ -64,7 +64,7 @@ def gen_prog(rng, depth=0):
             elif c < 0.78:
                 steps.append(['raise'])
             elif c < 0.84:
-                steps.append(['ret', rng.choice([0, 5])])
+                steps.append(['ret', rng.choice(['none', 'five', 'zero', 'false', 'empty'])])
                 break
             elif depth < 2:
                 steps.append(['run', gen_prog(rng, depth + 1), rng.random() < 0.5])
@@ -72,6 +72,9 @@ def gen_prog(rng, depth=0):
                 steps.append(['log'])
         acts.append(steps)
     return {'start': rng.choice([0, 0, 3, -2]), 'acts': acts}
+
+
+RETVALS = {'none': None, 'five': 5, 'zero': 0, 'false': False, 'empty': ''}
 
 
 class Boom(Exception):
@@ -96,7 +99,7 @@ def exec_prog(prog, log, path, failures):
                 log.append((path, 'raise', i, j, usim.time.now))
                 raise e
             elif s[0] == 'ret':
-                return s[1] if s[1] else None
+                return RETVALS[s[1]]
             elif s[0] == 'run':
                 t0 = usim.time.now
                 sub = path + (i, j)
@@ -159,7 +162,7 @@ def expected_outcome(prog):
             if s[0] == 'raise':
                 return ('Boom',)
             if s[0] == 'ret':
-                if s[1]:
+                if s[1] != 'none':
                     return ('ActivityLeak',)
                 j = len(steps)
                 break
